@@ -11,8 +11,12 @@ from ..core import log
 PID = "C16"
 PATHS_ALL = ["src/co-7-fig.rs", "a b/c d.txt", "Makefile", "x.y/z_1.tar.gz", "Make-7-file", "dir=1/f:2.rs",
              # paths that continue another path after a separator character (both inside the plain-text guarantee)
-             "Makefile-win.mk", "x.y/z_1.tar.gz=old.bak"]
-PLAIN_OK = {0, 1, 2, 3, 6, 7}          # the unambiguous class for plain-text grep output (see the statement)
+             "Makefile-win.mk", "x.y/z_1.tar.gz=old.bak",
+             # a blank in the path and an inner dotted segment directly followed by a separator character
+             "release notes/v1.2-rc1.md",
+             # characters that JSON has to escape
+             "dir\\sub\\c.rs", "we\"ird name.rs"]
+PLAIN_OK = {0, 1, 2, 3, 6, 7, 8}          # the unambiguous class for plain-text grep output (see the statement)
 CODES = ["  let foo = 1;", "\tfoo(bar)", "foo", "x: foo - 7 = foo", "foo 世界 foo", "", "\t\tif foo { é }",
          "  \tint foo;", " \t \tfoo = foo", "    ", "foo " + "x" * 3100 + " foo", "no match here"]
 RS = ["--no-gitconfig", "--syntax-theme", "none", "--grep-file-style", "35", "--grep-line-number-style", "36",
